@@ -298,9 +298,19 @@ func c14Evaluate(r *vrep.R, sc c14Scenario, bound int, s *vsched.Sched, res *c14
 				win = k
 			}
 		}
+		// A state without active blocks ends in the very block it is initiated in: a
+		// message that arrived during its delay is dequeued in a select in which the end
+		// signal is ready too, so it may legitimately go to the following state(s) as well
+		// (no protocol of the repository has a state with a delay and no active blocks;
+		// silent states have neither). Phase-exactness is demanded where the window has
+		// active blocks.
+		acceptable := map[int]bool{win: true}
+		for k := win; k >= 0 && k < n && sc.Shape[k][1] == 0; k++ {
+			acceptable[k+1] = true
+		}
 		if timely {
 			switch {
-			case win >= 0 && m.live == 1 && count[m.tag] == 1 && where[m.tag] != win:
+			case win >= 0 && m.live == 1 && count[m.tag] == 1 && !acceptable[where[m.tag]]:
 				fail("crossed-phase", fmt.Sprintf("timely schedule: message %s delivered in block %d (window of state %d) was handed to state %d", m.tag, m.block, win, where[m.tag]))
 			case win >= 0 && m.block >= sc.Start && m.live == 1 && count[m.tag] == 0 && m.block < end[n-1]:
 				fail("lost", fmt.Sprintf("timely schedule: message %s delivered in block %d (window of state %d) with a live registration was never handed to a state", m.tag, m.block, win))
